@@ -235,6 +235,31 @@ def run(ctx):
                                           monitor="U_full post-condition")
             except Exception as e:  # noqa: BLE001
                 ctx.count("aliasing_epilogue_raised:" + type(e).__name__)
+        if rng.random() < 0.25:
+            # the program is shared through copy() / +, the derived circuit gets two mergeable swaps and is rewritten in
+            # place: the original must still report the product of exactly what was added to *it*
+            try:
+                if n >= 2 and rng.random() < 0.6:
+                    a_ = int(rng.integers(n - 1))
+                    sw = {a_: a_ + 1, a_ + 1: a_}
+                    c.mode_swaps(dict(sw)); log.append(["swaps", sw])
+                    c.mode_swaps(dict(sw)); log.append(["swaps", sw])
+                derived = c.copy() if rng.random() < 0.5 else ((c + lw.Circuit(n)) if rng.random() < 0.5 else (lw.Circuit(n) + c))
+                rws = [str(x) for x in rng.choice(["compress_mode_swaps", "remove_non_adjacent_bs", "unpack_groups"],
+                                                  size=int(rng.integers(1, 3)))]
+                for rw in rws:
+                    getattr(derived, rw)()
+                ctx.bucket("derived_circuit_rewritten")
+                for who, cc in (("original", c), ("rewritten derived circuit", derived)):
+                    status, problems = circmon.compare(cc, rng)
+                    if status == "compared":
+                        ctx.count("u_full_postconditions")
+                        for kind, detail in problems:
+                            ctx.violation(f"{who} after {rws} on a copy / sum: {kind}: {detail}",
+                                          case={"program": log, "rewrites_on_derived": rws}, mechanism="aliasing_" + kind,
+                                          monitor="U_full post-condition")
+            except Exception as e:  # noqa: BLE001
+                ctx.count("aliasing_epilogue_raised:" + type(e).__name__)
         nt = classify(log, ctx)
         ctx.case(key_of(log), nt, sample={"program": log})
         drain_into(ctx, {"program": log})
